@@ -351,7 +351,7 @@ def parse_assumptions(out):
             cur = set()
             blocks.append(cur)
         elif cur is not None:
-            m = re.match(r"^([A-Za-z_][A-Za-z0-9_.']*)\s*:", line)
+            m = re.match(r"^([A-Za-z_][A-Za-z0-9_.']*)\s*(:|$)", line)
             if m:
                 cur.add(m.group(1))
             elif line and not line.startswith(" "):
